@@ -67,9 +67,20 @@ def _expand(job):
     base_mod = g.diff()  # process-global library state is part of the state
     events = list(base.events())
     out = []
+    # a generic deep copy is only used if it is faithful: some objects rebuild themselves differently when
+    # copied (a dict subclass whose __setitem__ maintains a counter); then every transition replays the history
+    base_key = digest((base.key(), g.key()))
+    try:
+        probe = fork(base)
+        faithful = digest((probe.key(), g.key())) == base_key
+    except Exception:  # noqa: BLE001
+        faithful = False
     for ev in events:
-        g.restore(base_mod)
-        mon = fork(base)
+        if faithful:
+            g.restore(base_mod)
+            mon = fork(base)
+        else:
+            mon = build(modname, cfg, history)
         viols = mon.apply(ev)
         out.append((ev, digest((mon.key(), g.key())), viols, bool(getattr(mon, "nontrivial", False))))
     return out
